@@ -169,9 +169,18 @@ func c34Valid(rng *rand.Rand, maxRecs int) *c34Batch {
 	return b
 }
 
+// c34Giant is the share (percent) of hostile values that are expected to kill the process outright
+// (tens of GiB asked from the allocator). A death costs a child respawn, so the quick tier keeps
+// them rare; the sites they hit are the same ones the panic/over-allocation values hit.
+var c34Giant = 1
+
 // hostile values for varint length/count fields (§3.5: 0 / -1 / 2^31-1 / 2^63, huge and negative
-// counts) plus sizes around the property's 64 MiB bound
-func c34HostileVarint(rng *rand.Rand, actual int64) c34Var {
+// counts, over-long varints) plus sizes just above the property's 64 MiB bound, scaled by the
+// element size the field multiplies (1 for byte lengths, ~40 for header counts)
+func c34HostileVarint(rng *rand.Rand, actual int64, elem int64) c34Var {
+	if rng.Intn(100) < c34Giant {
+		return c34Var{v: []int64{1<<31 - 1, 1 << 31, 1 << 32, 1 << 35, 1 << 40}[rng.Intn(5)]}
+	}
 	switch x := rng.Intn(100); {
 	case x < 8:
 		return c34Var{v: 0}
@@ -183,21 +192,13 @@ func c34HostileVarint(rng *rand.Rand, actual int64) c34Var {
 		return c34Var{v: actual + 1}
 	case x < 30:
 		return c34Var{v: actual - 1}
-	case x < 36:
-		return c34Var{v: 65536 + rng.Int63n(1<<20)}
-	case x < 46:
-		return c34Var{v: 70_000_000 + rng.Int63n(30_000_000)} // just above 64 MiB as a byte length
-	case x < 52:
-		return c34Var{v: 2_000_000 + rng.Int63n(3_000_000)} // above 64 MiB as an element count
-	case x < 57:
-		return c34Var{v: 1<<31 - 1}
-	case x < 61:
-		return c34Var{v: 1 << 31}
-	case x < 64:
-		return c34Var{v: 1 << 32}
-	case x < 67:
-		return c34Var{v: 1 << 35}
-	case x < 72:
+	case x < 38:
+		return c34Var{v: 65536 + rng.Int63n(1<<20)/elem}
+	case x < 54:
+		return c34Var{v: (70_000_000 + rng.Int63n(30_000_000)) / elem} // just above 64 MiB once multiplied by the element size
+	case x < 62:
+		return c34Var{v: 1 << 62}
+	case x < 70:
 		return c34Var{v: 1<<63 - 1}
 	case x < 76:
 		return c34Var{v: -1 << 63}
@@ -225,7 +226,10 @@ func c34HostileVarint(rng *rand.Rand, actual int64) c34Var {
 }
 
 func c34HostileInt32(rng *rand.Rand, actual int32) int32 {
-	return []int32{0, -1, 1, actual + 1, actual - 1, 600_000, 1_000_000, 20_000_000, 1<<31 - 1, -1 << 31, 65536, -1000}[rng.Intn(12)]
+	if rng.Intn(100) < c34Giant {
+		return []int32{1<<31 - 1, 200_000_000}[rng.Intn(2)]
+	}
+	return []int32{0, -1, 1, actual + 1, actual - 1, 600_000, 700_000, 1_000_000, -1 << 31, 65536, -1000}[rng.Intn(11)]
 }
 
 // c34Mutate applies 1-2 structure-aware mutations and returns a label naming them.
@@ -244,17 +248,17 @@ func c34Mutate(rng *rand.Rand, b *c34Batch) string {
 			b.batchLen = &v
 			labels = append(labels, fmt.Sprintf("batch_length=%d", v))
 		case 2:
-			v := c34HostileVarint(rng, 30)
+			v := c34HostileVarint(rng, 30, 1)
 			r.length = &v
 			labels = append(labels, fmt.Sprintf("rec%d.length=%s", ri, v.desc()))
 		case 3:
-			r.klen = c34HostileVarint(rng, r.klen.v)
+			r.klen = c34HostileVarint(rng, r.klen.v, 1)
 			labels = append(labels, fmt.Sprintf("rec%d.key_len=%s", ri, r.klen.desc()))
 		case 4:
-			r.vlen = c34HostileVarint(rng, r.vlen.v)
+			r.vlen = c34HostileVarint(rng, r.vlen.v, 1)
 			labels = append(labels, fmt.Sprintf("rec%d.value_len=%s", ri, r.vlen.desc()))
 		case 5, 6:
-			r.hcount = c34HostileVarint(rng, r.hcount.v)
+			r.hcount = c34HostileVarint(rng, r.hcount.v, 40)
 			labels = append(labels, fmt.Sprintf("rec%d.header_count=%s", ri, r.hcount.desc()))
 		case 7:
 			if len(r.hdrs) == 0 {
@@ -262,7 +266,7 @@ func c34Mutate(rng *rand.Rand, b *c34Batch) string {
 				r.hcount.v = 1
 			}
 			h := &r.hdrs[rng.Intn(len(r.hdrs))]
-			h.klen = c34HostileVarint(rng, h.klen.v)
+			h.klen = c34HostileVarint(rng, h.klen.v, 1)
 			labels = append(labels, fmt.Sprintf("rec%d.header_key_len=%s", ri, h.klen.desc()))
 		case 8:
 			if len(r.hdrs) == 0 {
@@ -270,13 +274,13 @@ func c34Mutate(rng *rand.Rand, b *c34Batch) string {
 				r.hcount.v = 1
 			}
 			h := &r.hdrs[rng.Intn(len(r.hdrs))]
-			h.vlen = c34HostileVarint(rng, h.vlen.v)
+			h.vlen = c34HostileVarint(rng, h.vlen.v, 1)
 			labels = append(labels, fmt.Sprintf("rec%d.header_value_len=%s", ri, h.vlen.desc()))
 		case 9:
-			r.ts = c34HostileVarint(rng, r.ts.v)
+			r.ts = c34HostileVarint(rng, r.ts.v, 1)
 			labels = append(labels, fmt.Sprintf("rec%d.ts_delta=%s", ri, r.ts.desc()))
 		case 10:
-			r.od = c34HostileVarint(rng, r.od.v)
+			r.od = c34HostileVarint(rng, r.od.v, 1)
 			labels = append(labels, fmt.Sprintf("rec%d.offset_delta=%s", ri, r.od.desc()))
 		case 11:
 			b.attrs = []int16{1, 2, 3, 4, 0x10, 0x20, -1}[rng.Intn(7)]
@@ -347,6 +351,7 @@ func TestVerifC34Gen(t *testing.T) {
 		"the broker's whole validation of a produced batch is len >= 61 (NewRecordBatchFromBytes); measured here: the share of hostile batches handleProduce acknowledged")
 	dir := verifc34.CorpusDir()
 	ctx := context.Background()
+	c34Giant = r.N(1, 4)
 	t.Setenv("KAFSCALE_FLUSH_INTERVAL_MS", "86400000")
 	s3 := storage.NewMemoryS3Client()
 	broker := protocol.MetadataBroker{NodeID: 1, Host: "localhost", Port: 19092}
@@ -416,7 +421,7 @@ func TestVerifC34Gen(t *testing.T) {
 	}
 
 	// valid, broker-written
-	nValid := r.N(30, 200)
+	nValid := r.N(20, 200)
 	for i := 0; i < nValid; i++ {
 		rng := r.Rand(i)
 		topic := fmt.Sprintf("c34v-%d", i)
@@ -434,7 +439,7 @@ func TestVerifC34Gen(t *testing.T) {
 		collect(topic, "valid/broker")
 	}
 	// (b) hostile batches through the broker
-	nHostile := r.N(1200, 12000)
+	nHostile := r.N(700, 12000)
 	accepted := 0
 	for i := 0; i < nHostile; i++ {
 		rng := r.Rand(100000 + i)
@@ -484,7 +489,7 @@ func TestVerifC34Gen(t *testing.T) {
 		collect(topic, "broker/"+strings.Join(labels, "+"))
 	}
 	// (a) harness-wrapped byte strings
-	nMut := r.N(1500, 15000)
+	nMut := r.N(800, 15000)
 	for i := 0; i < nMut; i++ {
 		rng := r.Rand(200000 + i)
 		var body []byte
@@ -516,7 +521,7 @@ func TestVerifC34Gen(t *testing.T) {
 		addSeg("mut/"+strings.Join(labels, ","), seg, idx)
 	}
 	// truncation at every byte of small valid segments: the file cut, and the body cut with header/footer intact
-	nTrunc := r.N(3, 12)
+	nTrunc := r.N(2, 12)
 	for i := 0; i < nTrunc; i++ {
 		rng := r.Rand(300000 + i)
 		b := c34Valid(rng, 1+rng.Intn(3))
@@ -545,7 +550,7 @@ func TestVerifC34Gen(t *testing.T) {
 		}
 	}
 	// bit flips and noise
-	nNoise := r.N(600, 8000)
+	nNoise := r.N(300, 8000)
 	for i := 0; i < nNoise; i++ {
 		rng := r.Rand(400000 + i)
 		switch rng.Intn(5) {
@@ -578,7 +583,7 @@ func TestVerifC34Gen(t *testing.T) {
 		}
 	}
 	// index files
-	nIdx := r.N(400, 4000)
+	nIdx := r.N(300, 4000)
 	for i := 0; i < nIdx; i++ {
 		rng := r.Rand(500000 + i)
 		ne := rng.Intn(6)
@@ -590,7 +595,10 @@ func TestVerifC34Gen(t *testing.T) {
 		case 0:
 			addIdx("idx/valid", c34Index(es, int32(ne), 100))
 		case 1, 2:
-			c := c34HostileInt32(rng, int32(ne))
+			c := []int32{-1, -1 << 31, 0, int32(ne) + 1, int32(ne) - 1, 5_000_000, 6_000_000, 65536}[rng.Intn(8)]
+			if rng.Intn(100) < c34Giant {
+				c = 1<<31 - 1
+			}
 			addIdx(fmt.Sprintf("idx/count=%d(entries %d)", c, ne), c34Index(es, c, 100))
 		case 3:
 			full := c34Index(es, int32(ne), 100)
@@ -617,6 +625,6 @@ func TestVerifC34Gen(t *testing.T) {
 	}
 	r.Note("hostile_batches_acknowledged_by_broker", fmt.Sprintf("%d", accepted))
 	r.Sample(map[string]any{"segments_container": segW.N, "indexes_container": idxW.N})
-	r.Floor("segment_inputs_broker", 500)
+	r.Floor("segment_inputs_broker", 300)
 	r.Floor("segment_inputs_reaching_batch_parser", 1000)
 }
